@@ -172,7 +172,14 @@ fn stress_values(seed: u64) -> Vec<(Ty, vmodel::Val)> {
     all.iter()
         .map(|d| {
             let ty = Ty::Adt(d.clone());
-            let v = vmodel::declgen::sample_val(&ty, ValCfg { max_len: 3, long: false, ..ValCfg::default() }, seed ^ 0xC18);
+            let mut v = vmodel::declgen::sample_val(&ty, ValCfg { max_len: 3, long: false, ..ValCfg::default() }, seed ^ 0xC18);
+            if d.name == "RecList" {
+                // a deeply nested value: 16 threads decode ~150 levels each at the same moment
+                v = vmodel::Val::Rec(vec![vmodel::Val::Int(0), vmodel::Val::None]);
+                for i in 1..150u32 {
+                    v = vmodel::Val::Rec(vec![vmodel::Val::Int((i % 251) as i128), vmodel::Val::some(v)]);
+                }
+            }
             (ty, v)
         })
         .collect()
